@@ -14,7 +14,7 @@ CHECK = {
         "structure check (client-policy handlers absent from the internal sub-pipelines; accesslist ahead of every answering handler) is judged on the chain built from middleware/defaults with the resolver replaced by a stub; resolver and forwarder themselves are not started",
     ],
     "bounds": {"quick": "ipset lists <=3 of 50 strings x 88 probes (127,551 lists); acl lists <=2 of 11 x 29 sources x 7 sinks x 4 entries x 2 query shapes; views tuples <=3 of 7 network lists x 26 sources x 6 sinks x 2 entries; pipeline 6 lists x 21 sources x 4 transports x 3 entries + structure + 10 internal sub-queries",
-               "thorough": "ipset lists <=4 (6,377,551 lists); acl lists <=3; views tuples <=4; pipeline as quick"},
+               "thorough": "ipset lists <=4 (6,377,551 lists) plus every ordered list of exactly 5 over a 20-entry nesting/adjacency sub-universe (3,200,000 lists); acl lists <=3; views tuples <=4; pipeline as quick"},
     "units": {
         "ipset": {"pkg": "internal/ipset", "run": "TestVerifC17Ipset",
                   "harness": {"internal/ipset": ["zz_verif_c17_*_test.go"]}},
